@@ -114,8 +114,33 @@ class History(object):
     def start_daemon(self, auth_timeout=120000):
         limits = dict(self.cfg)
         limits["auth_timeout"] = auth_timeout
-        self.config_text = busproc.make_config("@SOCK@", limits=limits)
         os.makedirs(self.rundir, exist_ok=True)
+        # Layout of the configuration: in 40 % of the histories the <limit> elements are FOLLOWED by an <includedir> (as
+        # in the shipped system.conf) or an <include> of a file that only adds a harmless policy, in another 20 % the
+        # limits themselves live in an included file.  What is configured must hold whatever the layout.
+        extra = ""
+        lay = self.rng.random()
+        self.layout = "flat"
+        if lay < 0.4:
+            inc = os.path.join(self.rundir, "conf-h%d.d" % self.hid)
+            os.makedirs(inc, exist_ok=True)
+            os.chmod(inc, 0o755)
+            with open(os.path.join(inc, "extra.conf"), "w") as fh:
+                fh.write('<busconfig>\n  <policy context="default">\n    <allow own="com.example.Included"/>\n  </policy>\n</busconfig>\n')
+            if lay < 0.25:
+                extra, self.layout = "  <includedir>%s</includedir>" % inc, "limits-then-includedir"
+            else:
+                extra, self.layout = "  <include>%s</include>" % os.path.join(inc, "extra.conf"), "limits-then-include"
+            self.config_text = busproc.make_config("@SOCK@", limits=limits, extra=extra)
+        elif lay < 0.6:
+            inc = os.path.join(self.rundir, "limits-h%d.conf" % self.hid)
+            with open(inc, "w") as fh:
+                fh.write("<busconfig>\n" + "".join('  <limit name="%s">%d</limit>\n' % kv for kv in sorted(limits.items())) + "</busconfig>\n")
+            self.layout = "limits-in-included-file"
+            self.config_text = busproc.make_config("@SOCK@", extra="  <include>%s</include>" % inc)
+        else:
+            self.config_text = busproc.make_config("@SOCK@", limits=limits)
+        self.part.count("config-layout:" + self.layout)
         self.trace = os.path.join(self.rundir, "trace-h%d" % self.hid)
         self.daemon = busproc.Daemon(self.b, self.rundir, self.config_text, name="h%d" % self.hid,
                                      env={"DBUS_VERIF_TRACE": self.trace})
